@@ -52,6 +52,12 @@ func vfGeneratedConfig() (string, string) {
 // its `base:` section (value "" removes the key) and returns a world around the
 // resulting RuntimeState, unsealed with the harness CA key.
 func vfLoadedWorld(base map[string]string) (*vfWorld, error) {
+	return vfLoadedWorldSections(base, nil)
+}
+
+// vfLoadedWorldSections additionally replaces whole top-level sections of the
+// generated file (key -> YAML text of the section body, indented by two blanks).
+func vfLoadedWorldSections(base map[string]string, sections map[string]string) (*vfWorld, error) {
 	vfFixtures()
 	gdir, text := vfGeneratedConfig()
 	dir, err := os.MkdirTemp(vfScratchRoot, "kmvw")
@@ -77,6 +83,14 @@ func vfLoadedWorld(base map[string]string) (*vfWorld, error) {
 	for k, v := range base {
 		set(k, v)
 	}
+	for name, body := range sections {
+		re := regexp.MustCompile(`(?m)^` + regexp.QuoteMeta(name) + `:.*\n(?:[ \t].*\n|\n)*`)
+		text = re.ReplaceAllString(text, "")
+		text += name + ":\n" + body
+		if !strings.HasSuffix(text, "\n") {
+			text += "\n"
+		}
+	}
 	cfg := filepath.Join(dir, "config.yml")
 	vfMust(os.WriteFile(cfg, []byte(text), 0o600))
 	_ = gdir
@@ -91,4 +105,96 @@ func vfLoadedWorld(base map[string]string) (*vfWorld, error) {
 	vfMust(st.signerPublicKeyToKeymasterKeys())
 	w.buildMux()
 	return w, nil
+}
+
+// vfConfigOption: one documented key of the configuration file, the value the
+// check writes for it, and where the loaded RuntimeState must show it.
+type vfConfigOption struct {
+	Prop string // property whose quantifier ranges over this option
+	Key  string // base.<key> or <section>.<key>
+	Want string
+	Got  func(st *RuntimeState) string
+}
+
+func vfConfigOptions() []vfConfigOption {
+	j := func(v interface{}) string { return fmt.Sprint(v) }
+	return []vfConfigOption{
+		{"C01", "base.allowed_auth_backends_for_certs", "[TOTP U2F]", func(st *RuntimeState) string { return j(st.Config.Base.AllowedAuthBackendsForCerts) }},
+		{"C08", "base.allowed_auth_backends_for_webui", "[U2F]", func(st *RuntimeState) string { return j(st.Config.Base.AllowedAuthBackendsForWebUI) }},
+		{"C08", "base.admin_users", "[cfg-admin]", func(st *RuntimeState) string { return j(st.Config.Base.AdminUsers) }},
+		{"C08", "base.admin_groups", "[cfg-admins]", func(st *RuntimeState) string { return j(st.Config.Base.AdminGroups) }},
+		{"C08", "base.automation_users", "[cfg-auto]", func(st *RuntimeState) string { return j(st.Config.Base.AutomationUsers) }},
+		{"C08", "base.automation_admins", "[cfg-autoadmin]", func(st *RuntimeState) string { return j(st.Config.Base.AutomationAdmins) }},
+		{"C08", "base.automation_user_groups", "[cfg-autogroup]", func(st *RuntimeState) string { return j(st.Config.Base.AutomationUserGroups) }},
+		{"C02", "base.disable_username_normalization", "true", func(st *RuntimeState) string { return j(st.Config.Base.DisableUsernameNormalization) }},
+		{"C02", "base.kerberos_realm", "CFG.REALM", func(st *RuntimeState) string {
+			if st.KerberosRealm != nil {
+				return *st.KerberosRealm
+			}
+			return st.Config.Base.KerberosRealm
+		}},
+		{"C04", "base.host_identity", "cfg-host.example", func(st *RuntimeState) string { return st.HostIdentity }},
+		{"C05", "base.enable_local_totp", "true", func(st *RuntimeState) string { return j(st.Config.Base.EnableLocalTOTP) }},
+		{"C05", "base.enable_bootstrapotp", "true", func(st *RuntimeState) string { return j(st.Config.Base.EnableBootstrapOTP) }},
+		{"C05", "base.webauth_token_for_cli_lifetime", "17m0s", func(st *RuntimeState) string { return j(st.Config.Base.WebauthTokenForCliLifetime) }},
+		{"C15", "base.allow_self_service_bootstrap_otp", "true", func(st *RuntimeState) string { return j(st.Config.Base.AllowSelfServiceBootstrapOTP) }},
+		{"C06", "denytrustdata.key_deny_list_ssh_sha256", "[SHA256:cfgdeny1 SHA256:cfgdeny2]", func(st *RuntimeState) string { return j(st.Config.DenyTrustData.KeyDenyFPsshSha256) }},
+		{"C12", "openid_connect_idp.clients[0].client_secret", "cfg-secret", func(st *RuntimeState) string {
+			if len(st.Config.OpenIDConnectIDP.Client) == 0 {
+				return "<no client>"
+			}
+			return st.Config.OpenIDConnectIDP.Client[0].ClientSecret
+		}},
+		{"C12", "openid_connect_idp.clients[0].allow_client_chose_audiences", "true", func(st *RuntimeState) string {
+			if len(st.Config.OpenIDConnectIDP.Client) == 0 {
+				return "<no client>"
+			}
+			return j(st.Config.OpenIDConnectIDP.Client[0].AllowClientChosenAudiences)
+		}},
+		{"C13", "openid_connect_idp.clients[0].allowed_redirect_domains", "[cfg.example.com]", func(st *RuntimeState) string {
+			if len(st.Config.OpenIDConnectIDP.Client) == 0 {
+				return "<no client>"
+			}
+			return j(st.Config.OpenIDConnectIDP.Client[0].AllowedRedirectDomains)
+		}},
+		{"C13", "openid_connect_idp.clients[0].allowed_redirect_url_re", "[^https://cfg\\.example\\.com/cb$]", func(st *RuntimeState) string {
+			if len(st.Config.OpenIDConnectIDP.Client) == 0 {
+				return "<no client>"
+			}
+			return j(st.Config.OpenIDConnectIDP.Client[0].AllowedRedirectURLRE)
+		}},
+		{"C14", "base.password_attempt_global_burst_limit", "33", func(st *RuntimeState) string { return j(st.Config.Base.PasswordAttemptGlobalBurstLimit) }},
+	}
+}
+
+// vfConfigInForce loads ONE configuration file in which every option above is set
+// under its documented key and returns, for the options of property prop, those
+// the loaded state does not show (a renamed or dropped key is silently ignored by
+// the YAML loader).
+func vfConfigInForce(prop string) (checked int, wrong []string, err error) {
+	base := map[string]string{
+		"allowed_auth_backends_for_certs": "[TOTP, U2F]", "allowed_auth_backends_for_webui": "[U2F]", "admin_users": "[cfg-admin]", "admin_groups": "[cfg-admins]",
+		"automation_users": "[cfg-auto]", "automation_admins": "[cfg-autoadmin]", "automation_user_groups": "[cfg-autogroup]", "disable_username_normalization": "true",
+		"kerberos_realm": "CFG.REALM", "host_identity": "cfg-host.example", "enable_local_totp": "true", "enable_bootstrapotp": "true", "webauth_token_for_cli_lifetime": "17m",
+		"allow_self_service_bootstrap_otp": "true", "password_attempt_global_burst_limit": "33",
+	}
+	sections := map[string]string{
+		"denytrustdata":      "  key_deny_list_ssh_sha256: [\"SHA256:cfgdeny1\", \"SHA256:cfgdeny2\"]\n",
+		"openid_connect_idp": "  default_email_domain: example.com\n  clients:\n    - client_id: cfg-client\n      client_secret: cfg-secret\n      allow_client_chose_audiences: true\n      allowed_redirect_domains: [cfg.example.com]\n      allowed_redirect_url_re: ['^https://cfg\\.example\\.com/cb$']\n",
+	}
+	w, err := vfLoadedWorldSections(base, sections)
+	if err != nil {
+		return 0, nil, err
+	}
+	defer w.Close()
+	for _, o := range vfConfigOptions() {
+		if o.Prop != prop {
+			continue
+		}
+		checked++
+		if got := o.Got(w.state); got != o.Want {
+			wrong = append(wrong, fmt.Sprintf("%s: file says %s, loaded state shows %s", o.Key, o.Want, got))
+		}
+	}
+	return checked, wrong, nil
 }
